@@ -341,7 +341,7 @@ class Program:
             raise CannotFold(f"name not foldable: {node.id} in {mod.name}")
         if isinstance(node, ast.Attribute):
             # module.CONST
-            if isinstance(node.value, ast.Name):
+            if isinstance(node.value, ast.Name) and not (env and node.value.id in env):
                 imp = mod.imports.get(node.value.id)
                 if imp and imp[0] == "mod":
                     return self.const(imp[1], node.attr)
@@ -399,6 +399,15 @@ class Program:
                     return {"str": str, "int": int, "bool": bool, "abs": abs}[cname](v_)
                 except (ValueError, TypeError):
                     raise CannotFold(f"conversion fails: {unparse(node)[:60]}")
+            if cname == "getattr" and len(node.args) in (2, 3) and not node.keywords:
+                import types as _ty2
+                obj_, nm_ = f(node.args[0]), f(node.args[1])
+                if isinstance(obj_, _ty2.SimpleNamespace) and isinstance(nm_, str):
+                    if hasattr(obj_, nm_):
+                        return getattr(obj_, nm_)
+                    if len(node.args) == 3:
+                        return f(node.args[2])
+                raise CannotFold(f"getattr not foldable: {unparse(node)[:60]}")
             if cname in ("any", "all", "sum") and len(node.args) == 1 and not node.keywords:
                 return {"any": any, "all": all, "sum": sum}[cname](f(node.args[0]))
             if cname == "re.escape" and len(node.args) == 1:
